@@ -4,7 +4,7 @@
 # alarm. benign_refactors/EXPECTED_ALARMS lists the ones that are known and documented in DESIGN.md.
 set -u
 export GOFLAGS=-mod=mod GOPROXY=off
-J=6
+J=${J:-6}
 worker() {
   k=$1; WT=/tmp/wt-benignref-$$-$k
   git -C /repo worktree add -q --detach "$WT" HEAD || exit 2
